@@ -153,3 +153,33 @@ Example C15_reused_context_nonvacuous :
   | None => False
   end.
 Proof. exact reused_context_example. Qed.
+
+(* ---------------------------------------------------------------- second tie: translated code
+   GenLeaf.v is REGENERATED from /repo's Go source on every run (tools/go2coq, explicit Go integer
+   semantics GoSem.v); the theorems below say that the generated definitions equal the model's
+   functions on the stated ranges, so an edit of these Go functions breaks an obligation of this file. *)
+From Arsenal Require GoSem GenLeaf GenLeafProofs.
+
+Theorem C15_code_checkCounters : forall p bytes,
+  -2 ^ 63 <= Pass.ps_bytes_moved (Pass.p_stats p) + bytes < 2 ^ 63 ->
+  -2 ^ 63 <= Pass.p_ignored p + 1 < 2 ^ 63 ->
+  GenLeaf.checkCounters (Pass.p_max_bytes p) (Pass.p_max_allocs p) (Pass.ps_bytes_moved (Pass.p_stats p))
+                        (Pass.ps_allocs_moved (Pass.p_stats p)) (Pass.p_ignored p) bytes
+  = (GenLeafProofs.counter_code (snd (Pass.check_counters p bytes)), Pass.p_ignored (fst (Pass.check_counters p bytes)))
+  /\ fst (Pass.check_counters p bytes) = Pass.set_ignored p (Pass.p_ignored (fst (Pass.check_counters p bytes))).
+Proof. exact GenLeafProofs.gen_checkCounters_eq. Qed.
+Print Assumptions C15_code_checkCounters.
+
+Theorem C15_code_incrementCounters : forall p bytes,
+  -2 ^ 63 <= Pass.ps_bytes_moved (Pass.p_stats p) + bytes < 2 ^ 63 ->
+  -2 ^ 63 <= Pass.ps_allocs_moved (Pass.p_stats p) + 1 < 2 ^ 63 ->
+  GenLeaf.incrementCounters (Pass.p_max_bytes p) (Pass.p_max_allocs p) (Pass.ps_bytes_moved (Pass.p_stats p))
+                            (Pass.ps_allocs_moved (Pass.p_stats p)) bytes
+  = GenLeafProofs.incres_outcome (Pass.increment_counters p bytes)
+  /\ fst (Pass.increment_counters p bytes)
+     = Pass.set_stats p (Pass.mkPS (Pass.ps_bytes_moved (Pass.p_stats (fst (Pass.increment_counters p bytes))))
+                         (Pass.ps_bytes_freed (Pass.p_stats p))
+                         (Pass.ps_allocs_moved (Pass.p_stats (fst (Pass.increment_counters p bytes))))
+                         (Pass.ps_allocs_freed (Pass.p_stats p))).
+Proof. exact GenLeafProofs.gen_incrementCounters_eq. Qed.
+Print Assumptions C15_code_incrementCounters.
